@@ -55,3 +55,25 @@ def facts_part(rep, prop, module, theorems):
     if bad:
         return False, "fact theorems with unexpected axioms or missing: " + ", ".join(n for n, _ in bad)
     return True, ""
+
+
+def facts_for(rep, prop):
+    """all regenerated-fact obligations of a property; returns the list of failure messages"""
+    from .obligations import FACT_OBLIGATIONS
+    msgs = []
+    for module, thms in FACT_OBLIGATIONS.get(prop, []):
+        ok, msg = facts_part(rep, prop, module, thms)
+        if not ok:
+            msgs.append(msg)
+    return msgs
+
+
+def report_fact_failures(rep, prop, msgs, n=30):
+    """to be called after the search for a failing input: if none was found the violation is reported without one"""
+    if not msgs:
+        return
+    if any(not no_input for _, _, no_input in rep.violations):
+        return  # a concrete failing input is already reported
+    p = write_replay(prop, n, ["theorems about facts regenerated from the source no longer check; no failing input was found"],
+                     "\n\n".join(msgs) + "\n", ext="txt")
+    rep.violation(p, msgs[0].split("\n")[0][:300], no_input=True)
